@@ -45,6 +45,17 @@ def build_ops(R):
                 add(CS.crypt_op("rn", 3, ph, st, size), ("generic", "size%d:%s" % (size, prior), len(ph or b""), len(st or b"")))
         for e in ("r", "st"):
             add(CS.crypt_op(e, 3, ph, st), ("generic", "entry-" + e, len(ph or b""), len(st or b"")))
+    # 4. cost numbers beyond the documented range, including the values that fall back INTO the range when truncated to 32 bits or wrapped modulo
+    #    2^64 (seeded/C05g: a round count narrowed before its range check): they must be refused like any other out-of-range number
+    big = [10**9, 2**32 - 1, 2**32, 2**32 + 1000, 2**32 + 5000, 2**32 + 999999999, 2**33 + 1000, 2**40 + 5000, 2**63 + 1000, 2**64 - 1, 2**64 + 1000, 2**64 + 2**32 + 1000]
+    for n in big:
+        for st in (b"$5$rounds=%d$saltsalt" % n, b"$6$rounds=%d$saltsalt" % n, b"$6$rounds=%d$saltsalt$" % n + S.rs(R.rng, S.A64, 86)):
+            add(CS.crypt_op("rn", 1, b"prior", S.CANON["md5crypt"]), ("sha512crypt", "setup", 0, 0))
+            add(CS.crypt_op(R.rng.choice(["rn", "r"]), 1, b"pw", st), ("sha512crypt" if st[1:2] == b"6" else "sha256crypt", "cost-beyond-range", 2, len(st)))
+    for n in [2**32, 2**32 + 24, 2**33 + 24, 2**64 + 24]:
+        add(CS.crypt_op("rn", 1, b"pw", b"$sha1$%d$saltsalt$" % n), ("sha1crypt", "cost-beyond-range", 2, 0))
+    for c in (b"32", b"40", b"99"):
+        add(CS.crypt_op("rn", 1, b"pw", b"$2b$" + c + b"$abcdefghijklmnopqrstuu"), ("bcrypt", "cost-beyond-range", 2, 0))
     # 3. grammar-shaped stream (many rejected spellings of cost fields, truncated salts ...)
     g, gm = CS.gen_stream(R, 1500 if quick else 30000)
     ops += g; meta += gm
@@ -63,6 +74,17 @@ def common_suffix(a, b):
     while n < len(a) and n < len(b) and a[-1 - n] == b[-1 - n]: n += 1
     return n
 
+def cost_beyond_range(st):
+    """crypt(5): sha256crypt / sha512crypt rounds are at most 999999999, sha1crypt's iteration count is a 32-bit number, bcrypt's cost at most 31"""
+    import re
+    m = re.match(rb"^\$[56]\$rounds=([0-9]+)\$", st)
+    if m and int(m.group(1)) > 999999999: return True
+    m = re.match(rb"^\$sha1\$([0-9]+)\$", st)
+    if m and int(m.group(1)) > 2**32 - 1: return True
+    m = re.match(rb"^\$2[abxy]\$([0-9][0-9])\$", st)
+    if m and int(m.group(1)) > 31: return True
+    return False
+
 def oracle(ops, meta, il, ml=None):
     """fail-closed invariants, evaluated on the implementation's observations; the model's verdict is used only to
     name a request as 'cannot produce a hash' when the implementation itself raised EINVAL/ERANGE during the call"""
@@ -75,7 +97,7 @@ def oracle(ops, meta, il, ml=None):
         ph, st = unhx(t[3]), unhx(t[4]); size = int(t[5]) if len(t) > 5 else 32768
         f = fields(line)
         out = f.get("out"); ret = f.get("ret")
-        must_fail = (ph is None or st is None or len(ph) >= 512 or any(c in BAD for c in st) or (entry == "rn" and size < 32768) or st == b"")
+        must_fail = (ph is None or st is None or len(ph) >= 512 or any(c in BAD for c in st) or (entry == "rn" and size < 32768) or st == b"" or cost_beyond_range(st))
         failed = ret == "NULL" or (out not in (None, "?", "unterminated") and out.startswith("2a")) or (entry == "rn" and size < 32768)
         why = None
         if f.get("abort") != "0": why = "call aborted"
